@@ -375,18 +375,23 @@ func (g *tGen) aggregate(num int, depth int) *tField {
 	case 4: // horizontal scalar list
 		f.card, f.layout, f.kind = 'l', []byte{'d', 'h'}[g.r.Intn(2)], tScalarKinds[g.r.Intn(len(tScalarKinds))]
 		f.protoName += "_list"
-		switch g.r.Intn(6) {
+		switch g.r.Intn(7) {
 		case 0:
 			f.prop.fixed = true
 		case 1:
 			f.prop.size = 1 + g.r.Intn(3)
+		case 2: // both: the explicit size wins over the number of element columns
+			f.prop.fixed, f.prop.size = true, 1+g.r.Intn(4)
 		}
 	case 5: // horizontal struct list
 		f.card, f.layout, f.kind = 'l', 'h', "m"
 		f.protoName += "_list"
 		f.sub = g.structFields(0, false)
-		if g.r.Intn(6) == 0 {
+		switch g.r.Intn(8) {
+		case 0:
 			f.prop.fixed = true
+		case 1:
+			f.prop.fixed, f.prop.size = true, 1+g.r.Intn(3)
 		}
 	case 6: // horizontal in-cell struct list
 		f.card, f.layout, f.kind, f.incell = 'l', 'h', "m", true
